@@ -115,6 +115,7 @@ fn tick(what: impl FnOnce() -> String) {
 struct Out {
     lines: Vec<String>,
     counts: std::collections::BTreeMap<String, u64>,
+    last_dec: String,
 }
 impl Out {
     fn push(&mut self, v: Value) {
@@ -122,6 +123,12 @@ impl Out {
         *self.counts.entry(key).or_default() += 1;
         // candidates of recorded findings get a segment of their own
         let own = v["op"] == "amplify";
+        // one segment per decoder run of the plan: a rejection in one does not hide the others
+        let dec = v.get("dec").and_then(|d| d.as_str()).unwrap_or("").to_string();
+        if v["e"] == "pb" && !own && dec != self.last_dec {
+            self.lines.push(jline(json!({"e": "reset", "i": "plan", "dec": dec})));
+        }
+        self.last_dec = dec;
         if own {
             self.lines.push(jline(json!({"e": "reset", "i": "amplify"})));
         }
@@ -474,7 +481,9 @@ fn msg_bytes(c: &Value, rng: &mut StdRng) -> Vec<u8> {
                     "none" => v.extend(framed(&e)),
                     "len0" => v.push(0x00),
                     "len_gt_tail" => {
-                        v.extend(uvarint(e.len() as u64 + 40));
+                        // (never 47: a leading '/' would make it a protocol line)
+                        let l = e.len() as u64 + 40;
+                        v.extend(uvarint(if l == 47 { 48 } else { l }));
                         v.extend(&e)
                     }
                     "no_nl" => {
@@ -786,7 +795,7 @@ fn run_pb(seed: u64, rounds: u64, extra: usize, out: &mut Out) {
         let valid = kad_valid(&mut rng);
         for (i, v) in valid.iter().enumerate() {
             let other = &valid[(i + 1) % valid.len()];
-            for (op, m) in mutations(v, other, &mut rng, extra) {
+            for (op, m) in mutations(v, other, &mut rng, extra).into_iter().chain(mutations_deep(v, 3)) {
                 if m.len() > KAD_LIMIT {
                     continue;
                 }
@@ -800,7 +809,7 @@ fn run_pb(seed: u64, rounds: u64, extra: usize, out: &mut Out) {
         let valid = bitswap_valid(&mut rng);
         for (i, v) in valid.iter().enumerate() {
             let other = &valid[(i + 1) % valid.len()];
-            for (op, m) in mutations(v, other, &mut rng, extra) {
+            for (op, m) in mutations(v, other, &mut rng, extra).into_iter().chain(mutations_deep(v, 3)) {
                 tick(|| format!("bitswap {op}"));
                 let (o, alloc, _) = bitswap_decode(&mut bsh, &mut bshandle, &m);
                 out.push(pb_event("bitswap", &op, o, alloc, bs::MAX_MESSAGE_SIZE, m.len()));
@@ -826,14 +835,14 @@ fn run_pb(seed: u64, rounds: u64, extra: usize, out: &mut Out) {
         let kp = Keypair::generate();
         let (payload, dh) = dc::noise_payload::local_payload(&kp, dc::Role::Dialer).expect("payload");
         let (payload2, _) = dc::noise_payload::local_payload(&Keypair::generate(), dc::Role::Listener).expect("payload");
-        for (op, m) in mutations(&payload, &payload2, &mut rng, extra) {
+        for (op, m) in mutations(&payload, &payload2, &mut rng, extra).into_iter().chain(mutations_deep(&payload, 2)) {
             tick(|| format!("noise {op}"));
             let (r, alloc) = measured(|| dc::noise_payload::parse_payload(&m, &dh));
             out.push(pb_event("noise_payload", &op, match r { Err(_) => "panic", Ok(Err(_)) => "err", Ok(Ok(_)) => "ok" }, alloc, NOISE_LIMIT, m.len()));
         }
         let pk = PublicKey::Ed25519(kp.public()).to_protobuf_encoding();
         let pk2 = PublicKey::Ed25519(Keypair::generate().public()).to_protobuf_encoding();
-        for (op, m) in mutations(&pk, &pk2, &mut rng, extra) {
+        for (op, m) in mutations(&pk, &pk2, &mut rng, extra).into_iter().chain(mutations_deep(&pk, 1)) {
             let (r, alloc) = measured(|| RemotePublicKey::from_protobuf_encoding(&m));
             out.push(pb_event("public_key", &op, match r { Err(_) => "panic", Ok(Err(_)) => "err", Ok(Ok(_)) => "ok" }, alloc, NOISE_LIMIT, m.len()));
         }
@@ -868,7 +877,7 @@ fn run_pb(seed: u64, rounds: u64, extra: usize, out: &mut Out) {
         if round % 4 == 0 {
             let (a, sender) = id_rig.encode(vec!["/ipfs/ping/1.0.0".into(), "/ipfs/kad/1.0.0".into()], vec![rand_addr(&mut rng, None)], Some(rand_addr(&mut rng, None)));
             let (b, _) = id_rig.encode(vec![], vec![], None);
-            for (op, m) in mutations(&a, &b, &mut rng, extra.min(4)) {
+            for (op, m) in mutations(&a, &b, &mut rng, extra.min(4)).into_iter().chain(mutations_deep(&a, 1)) {
                 if m.len() > dc::IDENTIFY_PAYLOAD_SIZE {
                     continue;
                 }
@@ -1233,7 +1242,7 @@ fn main() {
     let worker = std::thread::Builder::new()
         .stack_size(64 << 20)
         .spawn(move || {
-            let mut out = Out { lines: vec![], counts: Default::default() };
+            let mut out = Out { lines: vec![], counts: Default::default(), last_dec: String::new() };
             work(&args, &mut out);
             *sh2.lock().unwrap() = Some(out);
         })
